@@ -5,6 +5,8 @@ Relations (haptools/karyogram.py)
            (label, numeric chromosome, start and end as binary64 bit patterns)
   plot   : PlotKaryogram on the Agg backend; the PathCollections found on the axes afterwards
            (vertices, and the label the legend gives to their face colour)
+  tv_blocks : the blocks cases again, with GetChrom / GetHaplotypeBlocks interpreted from the MiniPy syntax regenerated
+           from the current source (translation validation: coq/translated/TVM_C18.v, TV_C18.v)
 """
 import os
 import shutil
@@ -24,6 +26,32 @@ PROPERTY_MODULE = "C18_Property"
 ALLOWED_AXIOMS = ["PrimFloat.float", "PrimFloat.leb", "PrimFloat.eqb", "PrimFloat.add", "PrimFloat.abs",
                   "PrimFloat.is_nan", "PrimFloat.is_infinity", "PrimFloat.ltb", "PrimFloat.sub", "PrimFloat.mul",
                   "PrimFloat.of_uint63", "Uint63.int", "PrimInt63.int"]
+# Translation validation: GetChrom and the whole of GetHaplotypeBlocks are regenerated from the current source on every
+# run (harness/pytrans.py -> HVG.Gen_Karyogram) and proved equal to C18_Model (coq/translated/TV_C18.v).
+TRANSLATION = {
+    "spec": {
+        "module": "Gen_Karyogram",
+        # string literals by their code points (VText): ==, len, slices and `"X" in chrom` are interpreted
+        "text": True,
+        # methods of built-in values that are NOT interpreted: Section variables extm_* (any function of receiver and
+        # arguments); their contracts are the hypotheses of the TV_* theorems (= the pieces of BpText the model uses)
+        "ext_methods": ["strip", "split", "join", "endswith", "startswith"],
+        # int(token) / float(token): extb_int / extb_float (the model's parse_int / parse_flt)
+        "ext_builtins": ["int", "float"],
+        # the file system: extc_os_path_exists, extc_open (what iterating over the open file yields)
+        "ext_dotted": ["os.path.exists", "open"],
+        "with_open": True,
+        # x + 0.0001: binary64 addition is the Section variable fadd (the model's plus_eps)
+        "float_add": True,
+        "exit_calls": ["sys.exit"],               # SystemExit = Err 10
+        "ignore_calls": ["sys.stderr.write"],     # the message before sys.exit(1)
+        "allow_defaults": True,                   # centromeres_file=None
+        "rhs_first_stores": True,                 # chrom_ends[GetChrom(..)] = float(..): float() is evaluated first
+        "functions": [("haptools/karyogram.py", "GetChrom"), ("haptools/karyogram.py", "GetHaplotypeBlocks")],
+    },
+    "models": ["TVM_C18"],
+    "proofs": ["TV_C18"],
+}
 RULE = (
     "generated .bp files: 1-4 samples, the drawn sample first / in the middle / last / absent (absent names are near "
     "misses of present ones: a prefix, a suffixed form, with an underscore more or less); sample IDs from lexical pools: "
@@ -42,6 +70,12 @@ TRUSTED = [
     "binary64 addition of 0.0001 is Coq's PrimFloat.add (bit-exact); in the theorems plus_eps is an abstract function",
     "str.strip().split() is done by the harness (lines are handed to the model as token lists)",
     "matplotlib keeps the vertices and face colours it is given (read back from ax.collections and the legend)",
+    "translation validation: harness/pytrans.py (the emitted MiniPy term is the function's syntax) and the interpreter "
+    "coq/theories/MiniPy.v; the Python string methods strip/split/join/startswith/endswith, int(), float(), "
+    "x + 0.0001, os.path.exists and open() are uninterpreted functions whose contracts are the hypotheses of the TV_* "
+    "theorems (BpText.starts_with / ends_with, split_on / join_with, int() returns an int, float() returns a value to "
+    "which 0.0001 can be added, open() yields the lines); tv_blocks evaluates the translated code with the BpText "
+    "functions and the recorded codecs against the real function on every run",
 ]
 ASSUMPTIONS = [
     "holds is demanded for files whose one-token lines pair up as <name>_1, <name>_2 (in either order) with distinct names "
@@ -666,14 +700,38 @@ class Plot(Relation):
         return "PlotKaryogram rectangles of the sample"
 
 
-RELATIONS = [Blocks(), Plot()]
+class TVBlocks(Blocks):
+    """The same generated GetHaplotypeBlocks calls, with GetChrom / GetHaplotypeBlocks evaluated from the MiniPy syntax
+    regenerated from the current source (str.strip/split/join/startswith/endswith = the BpText functions, int()/float() =
+    the recorded codec tables, x + 0.0001 = PrimFloat.add, the two files = the case's token lines): validates the
+    translator and the interpreter against the real code.  holds is checked by the blocks relation."""
+    name = "tv_blocks"
+    coq_lib = "HVG"
+    coq_module = "TVM_C18"
+    coq_check = "check_tv_blocks"
+    coq_case_type = "C18_Check.bcase"
+    coq_model = "tv_model_blocks"
+    coq_imports = ["BpText", "C18_Model", "C18_Check"]
+    budget = {"quick": 160, "thorough": 2000}
+
+    def exhaustive(self, tier):
+        return super().exhaustive(tier)[::5]
+
+    def signature(self, inp, obs):
+        return "tv_" + super().signature(inp, obs)
+
+
+RELATIONS = [Blocks(), Plot(), TVBlocks()]
 
 LEVEL_TEXT = (
     "Coq theorems over all token files, sample names and chromosome-end tables (no size bound) about a Gallina model of "
     "GetChrom/GetHaplotypeBlocks (framing state machine, start rule, extension pass) and PlotHaplotypeBlock's rectangle; "
     "the model is tied to the code on every run by evaluating, inside Coq with bit-exact PrimFloat arithmetic, "
     "model-vs-implementation agreement and the property's finite checker on generated files, for GetHaplotypeBlocks' "
-    "return value and for the PathCollections PlotKaryogram leaves on the matplotlib axes (Agg)."
+    "return value and for the PathCollections PlotKaryogram leaves on the matplotlib axes (Agg). GetChrom and the whole "
+    "of GetHaplotypeBlocks are regenerated from the current source on every run and proved equal to the model for all "
+    "files, tokenisers, sample names and chromosome-ends files (coq/translated/TV_C18.v: same blocks or same error "
+    "kind; C18_blocks_are_samples_lines and C18_extension_only_last restated about the translated code)."
 )
 LEVEL_NOTE = (
     "Partial: matplotlib (vertices/face colours kept as given), Python's float()/int() and str.split() are contracts, "
@@ -681,6 +739,10 @@ LEVEL_NOTE = (
     "a rectangle's label). Theorems treat x + 0.0001 as an abstract function; the correspondence evaluates it with PrimFloat. "
     "'Non-overlapping' is a theorem about the model for every order on the abstract float type with the transitivity laws, "
     "under the hypothesis that the file's cM ends increase within each run (x < plus_eps x <= next end); on the "
-    "implementation's output it is evaluated by holds under the same precondition in binary64."
+    "implementation's output it is evaluated by holds under the same precondition in binary64. "
+    "Translation validation: PlotKaryogram / PlotHaplotypeBlock (matplotlib) are not translated; the string methods, "
+    "int(), float(), the float addition and the file system are uninterpreted functions under stated contracts "
+    "(not proved of CPython); iterating over a file is read as iterating over the list open() stands for."
 )
-TECHNIQUE = "Coq proof by induction on line/block lists + vm_compute-evaluated correspondence (PrimFloat) against the implementation"
+TECHNIQUE = ("Coq proof by induction on line/block lists + translation validation of GetChrom / GetHaplotypeBlocks (source -> "
+             "MiniPy -> proved equal to the model) + vm_compute-evaluated correspondence (PrimFloat) against the implementation")
